@@ -223,16 +223,27 @@ def _sh_uid_alignment(cx, g, field):
     op = t[1][0]
     if not ((op == "!=" and pol) or (op == "==" and not pol)):
         return False
-    sides = t[2]
-    has_uid = any("uid" in cx.self_attrs_in(s) for s in sides)
-    fmt = False
-    for s in sides:
-        for x in T.walk(s):
-            if x[0] == "binop" and x[1] == "%" and x[2] == ("const", "%s-%s") and x[3][0] == "tuple" and len(x[3][1]) == 2:
-                a, b = x[3][1]
-                if T.attr_chain(a) == "%s.parent.uid" % cx.selfname and T.attr_chain(b) == "%s.id" % cx.selfname:
-                    fmt = True
-    return has_uid and fmt
+    S = ("param", cx.selfname)
+    own = ("attr", S, "uid")
+
+    def is_fmt(x):
+        return (x[0] == "binop" and x[1] == "%" and x[2] == ("const", "%s-%s") and x[3][0] == "tuple" and len(x[3][1]) == 2
+                and T.attr_chain(x[3][1][0]) == "%s.parent.uid" % cx.selfname and T.attr_chain(x[3][1][1]) == "%s.id" % cx.selfname)
+    sides = [list(s_[1]) if s_[0] == "phi" else [s_] for s_ in t[2]]
+    fside = [s_ for s_ in sides if any(is_fmt(a) for a in s_)]
+    oside = [s_ for s_ in sides if not any(is_fmt(a) for a in s_)]
+    if len(fside) != 1 or len(oside) != 1:
+        return False
+    # for a child the variant's own uid, untransformed, must be what is compared with '<parent uid>-<id>'
+    if own not in oside[0]:
+        return False
+    if len(oside[0]) == 1:
+        return True
+    # several alternatives: the untransformed uid must be the one chosen under the same condition as the formula
+    fmt_binds = [e for e in cx.events if e.kind == "bind" and is_fmt(e.value)]
+    own_binds = [e for e in cx.events if e.kind == "bind" and e.value == own]
+    return bool(fmt_binds) and bool(own_binds) and any(
+        facts.canon_guards(a.guards) == facts.canon_guards(b.guards) for a in fmt_binds for b in own_binds)
 
 
 def _sh_dash_in_id(cx, g, field):
@@ -476,6 +487,16 @@ def r_val_cover(model, rep):
             if isinstance(k, tuple) or k == "param":
                 continue        # nested objects / back-pointers
             key = (cls.qname, attr)
+            if cls.qname in ("composeinfo.VariantPaths", "treeinfo.VariantPaths") and isinstance(ia.value, (ast.Dict, ast.Constant)) \
+                    and key not in VAL_EXEMPT_FIELDS:
+                # attributes created from the class's own _fields table (setattr loop): free-form path tables
+                try:
+                    if attr in model.class_attr_const(cls, "_fields"):
+                        rep.ob("R-VAL-COVER", "%s.%s" % key, True, trivial=True, site=cls.module.site(cls.node),
+                               facts={"exempt": "path attribute generated from _fields; no documented rule"})
+                        continue
+                except Exception:
+                    pass
             if key in VAL_EXEMPT_FIELDS:
                 rep.ob("R-VAL-COVER", "%s.%s" % key, True, trivial=True, site=cls.module.site(cls.node),
                        facts={"exempt": VAL_EXEMPT_FIELDS[key]})
@@ -849,6 +870,92 @@ def r_hdr_gate(model, rep, tier):
            msg="" if ok else "version_tuple must validate the version string before splitting it")
 
 
+def r_version_tuple_fresh(model, rep, rule_id="R-HDR-GATE"):
+    """header.version_tuple is recomputed from self.version on every access and the version is a plain attribute"""
+    cls = model.cls("common.Header")
+    f = model.own_method("common.Header", "version_tuple")
+    cx = facts.fctx(model, f)
+    S = ("param", cx.selfname)
+    rets = [ev for ev in cx.events if ev.kind == "return"]
+    want = ("call", ("global", "tuple"), (("call", ("global", "split_version"), (("attr", S, "version"),), ()),), ())
+    ok = len(rets) == 1 and rets[0].value == want and not rets[0].guards and "version_tuple" in cls.properties
+    rep.ob(rule_id, "common.Header.version_tuple:recomputed", ok, site=cx.site(f.node),
+           msg="" if ok else "version_tuple must be tuple(split_version(self.version)) computed on every access (a cached tuple goes stale "
+                             "when the version changes)")
+    stores = [ev for ev in cx.events if ev.kind == "store"]
+    rep.ob(rule_id, "common.Header.version_tuple:no-state", not stores, site=cx.site(f.node),
+           msg="" if not stores else "version_tuple stores state (%s)" % T.show(stores[0].target))
+    ok = "version" not in cls.properties and "version" not in cls.methods
+    rep.ob(rule_id, "common.Header.version:plain-attribute", ok, site=cls.module.site(cls.node),
+           msg="" if ok else "Header.version is no longer a plain attribute")
+    g = model.own_method("common.Header", "set_current_version")
+    gcx = facts.fctx(model, g)
+    st = [ev for ev in gcx.events if ev.kind == "store"]
+    ok = len(st) == 1 and gcx.self_attr(st[0].target) == "version"
+    rep.ob(rule_id, "common.Header.set_current_version:sets-version", ok, site=gcx.site(g.node),
+           msg="" if ok else "set_current_version must assign self.version (and nothing else)")
+
+
+def r_skip_implies_empty(model, rep):
+    """a section writer that returns before validating may do so only when every validated field of the section is
+    empty: otherwise an invalid value in one field is silently dropped and the object is written"""
+    n = 0
+    for cls in facts.metadata_classes(model):
+        lk = cls.lookup("serialize")
+        if lk is None or lk[0].qname == "common.MetadataBase":
+            continue
+        if not facts.validator_methods(cls):
+            continue
+        defcls, fn = lk
+        cx = facts.fctx(model, FuncRef(defcls.module, defcls, fn))
+        v = [ev for ev in cx.calls("validate", on_self=True)]
+        if not v:
+            continue
+        early = [ev for ev in cx.events if ev.kind == "return" and ev.seq < v[0].seq]
+        if not early:
+            continue
+        fields = sorted(set(a.field for a in facts.assertions_of(model, cls) if a.field in cls.init_attrs(model) and not a.field.startswith("_")))
+        for ev in early:
+            n += 1
+            empty = set()
+            for g in ev.guards:
+                t, pol = T.strip_not(g[0], g[1])
+                parts = [(t, pol)]
+                if g[1] and g[0][0] == "boolop" and g[0][1] == "and":
+                    parts = [T.strip_not(x, True) for x in g[0][2]]
+                for t2, p2 in parts:
+                    a = cx.self_attr(t2)
+                    if a is not None and not p2:
+                        empty.add(a)
+            missing = [f_ for f_ in fields if f_ not in empty]
+            rep.ob("R-SKIP-IMPLIES-EMPTY", "%s.serialize" % cls.qname, not missing, site=cx.site(ev.lineno),
+                   msg="" if not missing else "the writer returns before validate() under a condition that does not imply that field(s) %s "
+                                             "are empty: an invalid value there is silently dropped and the object is written" % missing,
+                   facts={"fields": fields, "implied_empty": sorted(empty)})
+    if n < 3:
+        raise AnalysisError("vacuity guard: R-SKIP-IMPLIES-EMPTY found %d early-returning writers (floor 3)" % n)
+
+
+def r_json_native(model, rep):
+    """every type a validator accepts for a field of a JSON document can be serialised by json.dump (otherwise a value
+    passes validation and json.dump raises TypeError after the destination was opened)"""
+    from .oracle_tables import JSON_NATIVE_TYPES
+    n = 0
+    for cls in facts.metadata_classes(model):
+        if cls.module.name in ("treeinfo", "discinfo"):
+            continue
+        for a in facts.assertions_of(model, cls):
+            if a.kind != "type":
+                continue
+            n += 1
+            bad = sorted(x for x in a.arg if x not in JSON_NATIVE_TYPES)
+            rep.ob("R-JSON-NATIVE", "%s.%s" % (cls.qname, a.field), not bad, site="%s:%s" % (a.defcls.module.rel(), a.lineno),
+                   msg="" if not bad else "validator accepts type(s) %s for %s.%s, which json.dump cannot serialise: the dump fails with "
+                                         "TypeError after the destination file has been opened" % (bad, cls.qname, a.field))
+    if n < 30:
+        raise AnalysisError("vacuity guard: R-JSON-NATIVE examined %d type assertions" % n)
+
+
 def r_hdr_re(model, rep):
     """the header version pattern accepts exactly  digits '.' digits"""
     for q in ("common.Header", "treeinfo.Header"):
@@ -1042,6 +1149,7 @@ def check_c06(model, rep, tier):
     r_val_strength(model, rep, tier)
     r_label_lang(model, rep)
     r_assert_helpers(model, rep)
+    r_skip_implies_empty(model, rep)
     r_val_dead(model, rep)
     # converse, enumeration part only: every id the library itself creates passes the id validator
     from .regexes import r_cid_validator, compose_suffix_ladder
@@ -1073,6 +1181,15 @@ def check_c07(model, rep, tier):
     r_assert_helpers(model, rep)
     r_val_dead(model, rep)
     r_required(model, rep)
+    # the header is read first by every top-level reader: the gates and the type check of the sections depend on it
+    from .schema import composite_children, current_version
+    for q in ("composeinfo.ComposeInfo", "images.Images", "rpms.Rpms", "modules.Modules", "extra_files.ExtraFiles", "treeinfo.TreeInfo"):
+        rcx, rch = composite_children(model, model.own_method(q, "deserialize"), "deserialize", version=current_version(model))
+        order = [a for a, g, ev in rch]
+        ok = bool(order) and order[0] == "header"
+        rep.ob("R-READER-ORDER", "%s.deserialize" % q, ok, site=rcx.site(rcx.node),
+               msg="" if ok else "the header must be read (version, type check) before any other section: %s" % order)
+    r_version_tuple_fresh(model, rep)
     # "Images.add applied to every loaded image (arch and identity checks)"
     from .sources import r_add_scan, r_load_via_add
     r_add_scan(model, rep, tier)
@@ -1093,3 +1210,4 @@ def check_c18(model, rep, tier):
     _install_validate_summary(model)
     r_dump_order(model, rep)
     r_dump_validates(model, rep)
+    r_json_native(model, rep)
